@@ -220,6 +220,7 @@ type podPort struct {
 	HostPort      int32  `json:"host_port"`
 	ContainerPort int32  `json:"container_port"`
 	Proto         string `json:"proto"`
+	HostIP        string `json:"host_ip,omitempty"`
 }
 
 func (p *podModel) render() {
@@ -297,7 +298,7 @@ func (p *podModel) object() *corev1.Pod {
 	pod.Spec.NodeName = p.NodeName
 	for _, pp := range p.Ports {
 		pod.Spec.Containers[0].Ports = append(pod.Spec.Containers[0].Ports, corev1.ContainerPort{HostPort: pp.HostPort,
-			ContainerPort: pp.ContainerPort, Protocol: corev1.Protocol(pp.Proto)})
+			ContainerPort: pp.ContainerPort, Protocol: corev1.Protocol(pp.Proto), HostIP: pp.HostIP})
 	}
 	if p.WantENI {
 		q := resource.NewQuantity(1, resource.DecimalSI)
